@@ -122,12 +122,20 @@ let c18 f =
   | kind :: _ when String.length kind >= 3 && String.sub kind 0 3 = "big" -> "big"
   | [_kind; _group; _arena; t; d; segs; asel] ->
     let m = segs_of segs in
-    let s = sel_of asel in
+    let s = if String.length asel > 0 && asel.[0] = 'm' then SelRoot else sel_of asel in
     let fx = { cx_complist = fixed; cx_bitpad = fixed; cx_farnull = fixed; cx_rd = rdfix } in
-    let res = match run_canon (nat_of_int 200) (cfg t d) fx m s with
+    (* selector "m<i>.<j>": element j (struct view) of the list in pointer field i of the root *)
+    let member = String.length asel > 0 && asel.[0] = 'm' in
+    let pick c =
+      if member then
+        (match String.split_on_char '.' (String.sub asel 1 (String.length asel - 1)) with
+         | [i; j] -> select_member c m (init_rlimit c) (z_of_dec i) (z_of_dec j)
+         | _ -> failwith "bad member selector")
+      else select c m (init_rlimit c) s in
+    let res = match run_canon_p fixed (nat_of_int 200) (cfg t d) fx m (pick (cfg t d)) with
       | KOk bs -> "ok:" ^ hex_of_bytes bs
       | KErr -> "E" | KPanic -> "panic" | KFuel -> "fuel" in
-    let (spec, tr) = spec_canon_v wfuel (cfg gen_T "0") rdfix m s dcap pcap in
+    let (spec, tr) = spec_canon_v_p wfuel (cfg gen_T "0") rdfix m (pick (cfg gen_T "0")) dcap pcap in
     let spec_s, flags = match spec with
       | None -> "-", "-"
       | Some None -> "?", "-"     (* complete walk but no decoded value: must not happen *)
